@@ -10,7 +10,8 @@
   * `conn c now cmds`    `process_connection(c)` reading the batch `cmds` in ONE read: every frame is
                          executed to completion, in order (also the frames that follow a BLPOP that has
                          just blocked: the state is only looked at by `process_connections`, which skips
-                         a blocked connection from the NEXT iteration on);
+                         a blocked connection from the NEXT iteration on — unless `deferBatchWhenBlocked`);
+                         after every handler the wake queue is drained (`drain`, with `wakeAtPush`);
   * `timeouts now`       `process_blocked_timeouts` with `Instant::now() = now`;
   * `hangup c`           the peer closes its socket (nothing happens inside the server);
   * `reap c`             `process_connection(c)` reads EOF and `cleanup_connections` drops the connection and
@@ -106,6 +107,8 @@ structure ConnSt where
   blocked : Option Blocked := none
   inTx : Bool := false
   queue : List Cmd := []
+  /-- frames read but not yet executed (only with `deferBatchWhenBlocked`) -/
+  pending : List Cmd := []
   /-- the peer has closed its socket -/
   peerClosed : Bool := false
   /-- removed from the connection table -/
@@ -127,12 +130,21 @@ structure Quirks where
   /-- a key named twice in one BLPOP/BRPOP is waited on once (code: registered twice, so that one push of
       two elements wakes the same client twice and the second element is popped for nobody). -/
   dedupKeys : Bool
+  /-- `process_normal_command` drains the wake queue until it is empty (code: one `process_wakeups` call, at most
+      `wakeBatch` requests; the rest waits for the next command, which may pop their elements first). -/
+  drainAll : Bool
+  /-- `process_connections` also probes blocked connections for end-of-file, so a blocked client that hung up
+      is cleaned up (code: a blocked connection is never read; its hang-up goes unnoticed). -/
+  noticeBlockedHangup : Bool
+  /-- the frames of a batch that follow a blocking pop that blocked are kept and executed when the client is
+      unblocked (code: they are executed at once, while the client is blocked). -/
+  deferBatchWhenBlocked : Bool
 deriving DecidableEq, Repr
 
 /-- The tree before the first blocking repair.  What the tree does on a given run is read from the source by the
     translator (Gen/Blocking.lean) and confirmed over TCP by lib/c13.py. -/
-def Quirks.code : Quirks := ⟨false, false, false, false, false⟩
-def Quirks.fixed : Quirks := ⟨true, true, true, true, true⟩
+def Quirks.code : Quirks := ⟨false, false, false, false, false, false, false, false⟩
+def Quirks.fixed : Quirks := ⟨true, true, true, true, true, true, true, true⟩
 
 structure State where
   store : List (Key × Elem) := []
@@ -242,20 +254,28 @@ def iter {α : Type} (f : α → α) : Nat → α → α
   | 0, a => a
   | n+1, a => iter f n (f a)
 
+/-- First occurrences only (`keys.retain(|k| seen.insert(k.clone()))`). -/
+def dedupL : List Key → List Key
+  | [] => []
+  | k :: ks => k :: (dedupL ks).filter fun x => x != k
+
 /-- The keys a blocking pop registers on. -/
-def regKeys (q : Quirks) (keys : List Key) : List Key := if q.dedupKeys = true then keys.eraseDups else keys
+def regKeys (q : Quirks) (keys : List Key) : List Key := if q.dedupKeys = true then dedupL keys else keys
+
+/-- The `if has_pending_wakeups() { process_wakeups() }` at the end of `process_normal_command`. -/
+def drain (q : Quirks) (s : State) : State :=
+  if q.wakeAtPush = true then iter (wakeOne q) (if q.drainAll = true then s.wakeQ.length else wakeBatch) s else s
 
 /-- LPUSH/RPUSH/LPOP/RPOP/BLPOP/BRPOP executed for the client on wire connection `c`; `cid` is the
     connection id the handler receives: `c` itself, or 0 when called from `handle_exec`. -/
-def dataCmd (q : Quirks) (now : Nat) (c cid : Conn) (s : State) : Cmd → State
+def dataCore (q : Quirks) (now : Nat) (c cid : Conn) (s : State) : Cmd → State
   | .push op k vs =>
     if vs.isEmpty then emit s c .err
     else
       let st' := pushElems op k vs s.store
       let s1 : State := { s with store := st', pushed := s.pushed ++ vs.map fun v => (k, v) }
       let s2 := emit s1 c (.int (listOf st' k).length)
-      let s3 := notifyN (if q.notifyPerElement then vs.length else 1) k s2
-      if q.wakeAtPush = true then iter (wakeOne q) wakeBatch s3 else s3
+      notifyN (if q.notifyPerElement then vs.length else 1) k s2
   | .pop op k =>
     match popElem op k s.store with
     | some (e, st') => emit { s with store := st' } c (.bulk e.1 e.2)
@@ -274,6 +294,10 @@ def dataCmd (q : Quirks) (now : Nat) (c cid : Conn) (s : State) : Cmd → State
             (some { keys := regKeys q keys, deadline := dl, op := op })
   | .multi => s
   | .exec => s
+
+/-- The handler, then the wake-ups it (or an earlier command) requested. -/
+def dataCmd (q : Quirks) (now : Nat) (c cid : Conn) (s : State) (cmd : Cmd) : State :=
+  drain q (dataCore q now c cid s cmd)
 
 /-- One frame of the batch (`process_frame`): MULTI / EXEC, queueing inside a transaction, else the handler. -/
 def topCmd (q : Quirks) (now : Nat) (c : Conn) (s : State) : Cmd → State
@@ -317,15 +341,27 @@ deriving DecidableEq, Repr
 def canRun (s : State) (c : Conn) : Bool :=
   c != 0 && !(s.conns c).gone && !(s.conns c).peerClosed && (s.conns c).blocked.isNone
 
+/-- The frames of one read, in order; with `deferBatchWhenBlocked` the rest is kept once the client is blocked. -/
+def runBatch (q : Quirks) (now : Nat) (c : Conn) : List Cmd → State → State
+  | [], s => s
+  | cmd :: r, s =>
+    let s' := topCmd q now c s cmd
+    if q.deferBatchWhenBlocked = true ∧ (s'.conns c).blocked.isSome = true then
+      setConn s' c fun cs => { cs with pending := r }
+    else runBatch q now c r s'
+
 def step (q : Quirks) (s : State) : Event → State
   | .wakeups => iter (wakeOne q) wakeBatch s
-  | .conn c now cmds => if canRun s c = true then cmds.foldl (topCmd q now c) s else s
+  | .conn c now cmds =>
+    if canRun s c = true then
+      runBatch q now c ((s.conns c).pending ++ cmds) (setConn s c fun cs => { cs with pending := [] })
+    else s
   | .timeouts now => iter (expireOne now) s.registry.length s
   | .hangup c =>
     if c != 0 && !(s.conns c).gone then setConn s c fun cs => { cs with peerClosed := true } else s
   | .reap c =>
-    if c != 0 && !(s.conns c).gone && (s.conns c).peerClosed && (s.conns c).blocked.isNone then
-      let s1 := setConn s c fun cs => { cs with gone := true }
+    if c != 0 && !(s.conns c).gone && (s.conns c).peerClosed && ((s.conns c).blocked.isNone || q.noticeBlockedHangup) then
+      let s1 := setConn s c fun cs => { cs with gone := true, blocked := none }
       { s1 with registry := s1.registry.filter fun x => x.2.conn != c }
     else s
 
@@ -379,13 +415,19 @@ def topOk (q : Quirks) (now : Nat) (c : Conn) (s : State) : Cmd → Bool
     else true
   | cmd => if (s.conns c).inTx then true else dataOk s c cmd
 
-def topSeqOk (q : Quirks) (now : Nat) (c : Conn) : State → List Cmd → Bool
-  | _, [] => true
-  | s, cmd :: r => topOk q now c s cmd && topSeqOk q now c (topCmd q now c s cmd) r
+def batchOk (q : Quirks) (now : Nat) (c : Conn) : List Cmd → State → Bool
+  | [], _ => true
+  | cmd :: r, s =>
+    topOk q now c s cmd &&
+      (if q.deferBatchWhenBlocked = true ∧ ((topCmd q now c s cmd).conns c).blocked.isSome = true then true
+       else batchOk q now c r (topCmd q now c s cmd))
 
 /-- No disconnect while blocked; batches as above. -/
 def eventOk (q : Quirks) (s : State) : Event → Bool
-  | .conn c now cmds => if canRun s c = true then topSeqOk q now c s cmds else true
+  | .conn c now cmds =>
+    if canRun s c = true then
+      batchOk q now c ((s.conns c).pending ++ cmds) (setConn s c fun cs => { cs with pending := [] })
+    else true
   | .hangup c => (s.conns c).blocked.isNone
   | _ => true
 
